@@ -74,6 +74,17 @@ fn handle_item(
             } else if let Some(sourcefile) =
                 file_context.find_file(&name, SourceKind::Use(pos.clone()))?
             {
+                if !with.is_empty()
+                    && dest.head().is_loaded(sourcefile.path())
+                {
+                    return Err(Error::BadCall(
+                        "This module was already loaded, so it can't be \
+                         configured using \"with\"."
+                            .into(),
+                        pos.clone(),
+                        None,
+                    ));
+                }
                 let module = dest.head().load_module(
                     sourcefile.path(),
                     |dest| {
